@@ -1,6 +1,7 @@
 import WzVerif.Driver.Proto
 import WzVerif.Driver.C03
 import WzVerif.Model.RoutingRoundtrip
+import WzVerif.Driver.PyPrelude
 namespace Wz.Driver.C04
 open Wz Wz.Proto Wz.Routing Wz.Routing.Wire
 
@@ -23,6 +24,8 @@ def handle : Handler
             | .ok u => "U " ++ hexStr u ++ " " ++ outOpt outValue (toPython c (unquote u)) ++ " " ++ outBool (regexAccepts c (unquote u))
             | .error e => "EXC:" ++ e)
     | _, _ => some badArgs
-  | cmd, args => Wz.Driver.C03.routing cmd args
+  | cmd, args =>
+    -- `pre.*`: primitives of Util/PyPrelude
+    Wz.Driver.C03.routing cmd args <|> Wz.Driver.PyPrelude.handle cmd args
 
 end Wz.Driver.C04
